@@ -26,25 +26,179 @@ def parse (t : List String) : Option Op :=
   | ["has", s] => some (.has (nat! s))
   | _ => none
 
-def stepLine (w : Option SWorld) (t : List String) : Option SWorld × String :=
+/-! ### several nodes, node death and cleanup (C04, API-call level) — driver only
+
+The proved models know one node.  Further nodes (`open k`: same process, `spawn k`: a process of its own), `kill k` and
+`cleanup k` are handled here: the driver remembers which node created which port; the death of a node changes nothing in the
+model world (its ports keep their registry slots, connections and chunks: that is what the survivors see until the cleanup);
+`cleanup` replays, for every dead node, the calls of an orderly drop of everything the node owned (`dsample`, `dsub`, `dloan`,
+`dpub`) on the model.  The claim checked against the real code is exactly that equivalence. -/
+
+structure NodeRec where
+  handle : Bool := true
+  svc : Bool := true
+  dead : Bool := false
+  dirLeft : Bool := false
+
+structure DState where
+  sw : SWorld
+  multi : Bool := false
+  nodes : List (Nat × NodeRec) := []
+  pubNode : List (Nat × Nat) := []
+  subNode : List (Nat × Nat) := []
+
+def ownerOf (m : List (Nat × Nat)) (l : Nat) : Nat := ((m.find? (·.1 = l)).map (·.2)).getD 0
+def getNode (d : DState) (k : Nat) : Option NodeRec := (d.nodes.find? (·.1 = k)).map (·.2)
+def setNode (d : DState) (k : Nat) (r : NodeRec) : DState :=
+  { d with nodes := d.nodes.map fun e => if e.1 = k then (k, r) else e }
+
+/-- port cores (the shared state of a port: kept by the port object, its loans / its samples) of node `k` -/
+def portCoresOf (d : DState) (k : Nat) : Nat :=
+  (d.sw.w.pubs.filter fun e => e.2.ex && ownerOf d.pubNode e.1 = k).length +
+  (d.sw.w.subs.filter fun e => e.2.ex && ownerOf d.subNode e.1 = k).length
+
+def svcCoreOf (d : DState) (k : Nat) : Bool :=
+  match getNode d k with
+  | some r => r.svc || portCoresOf d k > 0
+  | none => false
+
+def nodeCoreOf (d : DState) (k : Nat) : Bool :=
+  match getNode d k with
+  | some r => r.handle || svcCoreOf d k
+  | none => false
+
+def resourcesMulti (d : DState) : List (String × Nat) :=
+  if !d.sw.ipc then [] else
+  let keys := d.nodes.map (·.1)
+  let n := (keys.filter (nodeCoreOf d)).length
+  let v := (keys.filter (svcCoreOf d)).length
+  let dirs := (d.nodes.filter fun e => nodeCoreOf d e.1 || e.2.dirLeft).length
+  let pubsEx := (d.sw.w.pubs.filter (·.2.ex)).length
+  let all := [("connection", d.sw.w.conns.length), ("data", pubsEx), ("details", n), ("dynamic", if v > 0 then 1 else 0),
+              ("node_monitor", n), ("node_monitor_context", n), ("node_monitor_owner_lock", n),
+              ("nodedir", dirs), ("port_tag", portCores d.sw.w), ("service", if v > 0 then 1 else 0), ("service_tag", v)]
+  all.filter (·.2 ≠ 0)
+
+/-- one publish-subscribe call on the model world; a port core that was the last owner of its node leaves the node's
+directory behind (as in `Iox2.Shutdown.step`) -/
+def psStep (d : DState) (op : Op) (markDirs : Bool) : DState × String :=
+  let (w', out) := Iox2.PubSub.step d.sw.w op
+  let d' : DState := { d with sw := { d.sw with w := w' } }
+  if !markDirs then (d', out) else
+  ({ d' with nodes := d'.nodes.map fun e =>
+      if nodeCoreOf d e.1 && !nodeCoreOf d' e.1 then (e.1, { e.2 with dirLeft := true }) else e }, out)
+
+def repeatOp (d : DState) (op : Op) : Nat → DState
+  | 0 => d
+  | n + 1 => repeatOp (psStep d op false).1 op n
+
+/-- the calls of an orderly drop of everything node `k` owned -/
+def dropAllOf (d : DState) (k : Nat) : DState :=
+  let subs := (d.sw.w.subs.filter fun e => ownerOf d.subNode e.1 = k).map fun e => (e.1, e.2.held.length)
+  let d := subs.foldl (fun d (s, h) => (psStep (repeatOp d (.dsample s 0) h) (.dsub s) false).1) d
+  let pubs := (d.sw.w.pubs.filter fun e => ownerOf d.pubNode e.1 = k).map fun e => (e.1, e.2.loans.map (·.1))
+  pubs.foldl (fun d (p, ls) => (psStep (ls.foldl (fun d l => (psStep d (.dloan p l) false).1) d) (.dpub p) false).1) d
+
+def stripAt (t : List String) : List String × Nat :=
+  match t.getLast? with
+  | some x => if x.startsWith "@" then (t.dropLast, nat! (x.drop 1).toString) else (t, 0)
+  | none => (t, 0)
+
+/-- the port a call addresses: (is publisher, label) -/
+def addressed (t : List String) : Option (Bool × Nat) :=
+  match t with
+  | ["dpub", p] | ["probe", p] | ["upd", "p", p] => some (true, nat! p)
+  | "loan" :: p :: _ | "send" :: p :: _ | "dloan" :: p :: _ => some (true, nat! p)
+  | ["dsub", s] | ["recv", s] | ["has", s] | ["upd", "s", s] => some (false, nat! s)
+  | "dsample" :: s :: _ => some (false, nat! s)
+  | _ => none
+
+def multiStep (d : DState) (t0 : List String) : DState × String :=
+  let (t, k) := stripAt t0
+  match t with
+  | ["ls"] => (d, showResources (resourcesMulti d))
+  | ["open", n] | ["spawn", n] =>
+    if (getNode d (nat! n)).isSome then (d, "dup") else
+    if !(d.nodes.any fun e => svcCoreOf d e.1) then (d, "err:open:DoesNotExist") else
+    ({ d with nodes := d.nodes ++ [(nat! n, {})] }, "ok")
+  | ["dnode", n] | ["dsvc", n] | ["kill", n] | ["cleanup", n] =>
+    let n := nat! n
+    match getNode d n with
+    | none => (d, if t.head? = some "kill" then "no-node" else "none")
+    | some r =>
+      if r.dead then (d, if t.head? = some "kill" then "dead" else "none") else
+      match t.head? with
+      | some "dnode" => if r.handle then (setNode d n { r with handle := false }, "ok") else (d, "none")
+      | some "dsvc" => if r.svc then (setNode d n { r with svc := false }, "ok") else (d, "none")
+      | some "kill" => (setNode d n { r with dead := true }, "ok")
+      | _ =>
+        if !r.handle then (d, "none") else
+        let deadOnes := (d.nodes.filter fun e => e.2.dead && nodeCoreOf d e.1).map (·.1)
+        let d := deadOnes.foldl (fun d j =>
+          let d := dropAllOf d j
+          match getNode d j with
+          | some r => setNode d j { r with handle := false, svc := false, dirLeft := false }
+          | none => d) d
+        (d, s!"c={deadOnes.length},f=0")
+  | ["dnode"] => multiStep_dn d "dnode"
+  | ["dsvc"] => multiStep_dn d "dsvc"
+  | _ =>
+    match parse t with
+    | none => (d, "bad-op")
+    | some op =>
+      match op with
+      | .cpub p _ | .csub p _ _ =>
+        let isPub := match op with | .cpub _ _ => true | _ => false
+        let fresh := if isPub then (getP d.sw.w p).isNone else (getS d.sw.w p).isNone
+        let usable := match getNode d k with | some r => !r.dead && r.svc | none => false
+        if fresh && !usable then (d, "no-service") else
+        let (d', out) := psStep d op false
+        if out == "ok" then
+          (if isPub then { d' with pubNode := d'.pubNode ++ [(p, k)] } else { d' with subNode := d'.subNode ++ [(p, k)] }, out)
+        else (d', out)
+      | _ =>
+        let deadOwner := match addressed t with
+          | some (true, l) => (match getNode d (ownerOf d.pubNode l) with | some r => r.dead | none => false)
+          | some (false, l) => (match getNode d (ownerOf d.subNode l) with | some r => r.dead | none => false)
+          | none => false
+        if deadOwner then (d, "none") else psStep d op true
+where
+  multiStep_dn (d : DState) (what : String) : DState × String :=
+    match getNode d 0 with
+    | none => (d, "none")
+    | some r =>
+      if r.dead then (d, "none") else
+      if what == "dnode" then (if r.handle then (setNode d 0 { r with handle := false }, "ok") else (d, "none"))
+      else (if r.svc then (setNode d 0 { r with svc := false }, "ok") else (d, "none"))
+
+def stepLine (w : Option DState) (t : List String) : Option DState × String :=
   match t with
   | ["new", variant, mp, ms, b, h, r, ov, e] =>
       -- service builder: without safe overflow the buffer must hold the whole history
       if ov ≠ "1" ∧ clamp1 (nat! b) < nat! h then (none, "err:service:SubscriberBufferMustBeLargerThanHistorySize") else
       let cfg : Cfg := { maxPubs := clamp1 (nat! mp), maxSubs := clamp1 (nat! ms), bufMax := clamp1 (nat! b),
                          hist := nat! h, borrowMax := clamp1 (nat! r), overflow := ov = "1", expired := nat! e }
-      (some (SWorld.init cfg (variant == "ipc" || variant == "ipc-slice" || variant == "ipc-fb")), "ok")
+      (some { sw := SWorld.init cfg (variant == "ipc" || variant == "ipc-slice" || variant == "ipc-fb") }, "ok")
   | ["new", variant, mp, ms, b, h, r, ov, e, pre] =>
       -- service builder: without safe overflow the buffer must hold the whole history
       if ov ≠ "1" ∧ clamp1 (nat! b) < nat! h then (none, "err:service:SubscriberBufferMustBeLargerThanHistorySize") else
       let cfg : Cfg := { maxPubs := clamp1 (nat! mp), maxSubs := clamp1 (nat! ms), bufMax := clamp1 (nat! b),
                          hist := nat! h, borrowMax := clamp1 (nat! r), overflow := ov = "1", expired := nat! e,
                          prealloc := some (nat! pre) }
-      (some (SWorld.init cfg (variant == "ipc" || variant == "ipc-slice" || variant == "ipc-fb")), "ok")
+      (some { sw := SWorld.init cfg (variant == "ipc" || variant == "ipc-slice" || variant == "ipc-fb") }, "ok")
   | _ =>
     match w with
     | none => (none, "no-world")
-    | some w =>
+    | some d =>
+      -- the first `open` / `spawn` of a case switches to the several-nodes bookkeeping
+      let d : DState :=
+        if !d.multi && (t.head? = some "open" || t.head? = some "spawn" || t.head? = some "kill" || t.head? = some "cleanup") then
+          { d with multi := true, nodes := [(0, { handle := d.sw.node, svc := d.sw.svc, dirLeft := d.sw.nodeDirLeft })] }
+        else d
+      if d.multi then
+        let (d', out) := multiStep d t
+        (some d', out)
+      else
       let sop : Option SOp :=
         match t with
         | ["dnode"] => some .dnode
@@ -52,8 +206,8 @@ def stepLine (w : Option SWorld) (t : List String) : Option SWorld × String :=
         | ["ls"] => some .ls
         | _ => (parse t).map .ps
       match sop with
-      | none => (some w, "bad-op")
-      | some op => let (w', out) := Iox2.Shutdown.step w op; (some w', out)
+      | none => (some d, "bad-op")
+      | some op => let (w', out) := Iox2.Shutdown.step d.sw op; (some { d with sw := w' }, out)
 
-def comp : Comp := { σ := Option SWorld, init := none, step := stepLine }
+def comp : Comp := { σ := Option DState, init := none, step := stepLine }
 end Driver.PubSubD
